@@ -174,9 +174,20 @@ Dom_apply(f, a) ==
   /\ \A i \in 1..Len(a.funcs) :
        a.funcs[i].kind = "callable" => Fun1dLen(a.funcs[i].f, DimLen(f, a.funcs[i].d)) >= 1
 
+\* functions that only select / reorder elements carry every cell with its mask
+\* (and its value, finite or not) to the new position
+SelFuns == {"rev", "sub2", "first"}
+SelIdx1d(f, n) == CASE f = "rev" -> [j \in 1..n |-> n + 1 - j]
+                    [] f = "sub2" -> [j \in 1..((n + 1) \div 2) |-> 2 * j - 1]
+                    [] f = "first" -> <<1>>
 ApplyAxis(arr, ax, fn) ==
   IF fn.kind = "reducer"
   THEN AlongAxis(arr, ax, 1, LAMBDA vals, mask : Reduce(fn.f, vals, mask))
+  ELSE IF fn.f \in SelFuns
+  THEN AlongAxis(arr, ax, Fun1dLen(fn.f, arr.shape[ax]),
+                 LAMBDA vals, mask : LET ix == SelIdx1d(fn.f, Len(vals)) IN
+                                     [vals |-> [j \in 1..Len(ix) |-> vals[ix[j]]],
+                                      mask |-> [j \in 1..Len(ix) |-> mask[ix[j]]]])
   ELSE AlongAxis(arr, ax, Fun1dLen(fn.f, arr.shape[ax]),
                  LAMBDA vals, mask : [vals |-> Fun1d(fn.f, vals),
                                       mask |-> [j \in 1..Fun1dLen(fn.f, Len(vals)) |-> FALSE]])
@@ -193,7 +204,7 @@ Perms(S) == IF S = {} THEN {<<>>}
 
 ApplyVar(a, v) ==
   LET axes == {ax \in 1..Len(v.dims) : v.dims[ax] \in FuncDims(a)}
-      anyCallable == \E ax \in axes : FuncOf(a, v.dims[ax]).kind = "callable"
+      anyCallable == \E ax \in axes : FuncOf(a, v.dims[ax]).kind = "callable" /\ FuncOf(a, v.dims[ax]).f \notin SelFuns
       nshape == [ax \in 1..Len(v.dims) |->
                    IF ax \in axes THEN OutLen(FuncOf(a, v.dims[ax]), v.shape[ax]) ELSE v.shape[ax]]
   IN IF axes = {} THEN v
@@ -541,7 +552,9 @@ Dec_apply(f, a) ==
         axes == {ax \in 1..Len(v.dims) : v.dims[ax] \in FuncDims(a)}
         fns == {FuncOf(a, v.dims[ax]).f : ax \in axes}
     IN axes # {} =>
-         /\ MaxDen(v) = 1 /\ Cardinality(axes) <= 2 /\ ~HasNonFin(v)
+         /\ MaxDen(v) = 1 /\ Cardinality(axes) <= 2
+         \* non-finite cells: only where every function merely selects elements
+         /\ (HasNonFin(v) => \A ax \in axes : FuncOf(a, v.dims[ax]).kind = "callable" /\ FuncOf(a, v.dims[ax]).f \in SelFuns)
          \* float32 variance is not exact enough to identify the rational value
          /\ ("var" \in fns => Cardinality(axes) = 1 /\ (MaxAbs(v) <= 2000 \/ v.dt = "f"))
          /\ ("prod" \in fns => Cardinality(axes) = 1 /\ MaxAbs(v) <= 30)
